@@ -78,12 +78,22 @@ func (self *BinaryConv) do(ctx context.Context, src []byte, desc *thrift.TypeDes
 	}
 
 	// special case for unquoted json string
-	if desc.Type() == thrift.STRING && src[0] != '"' {
+	if desc.Type() == thrift.STRING && !isQuoted(src) {
 		buf := make([]byte, 0, len(src)+2)
 		src = json.EncodeString(buf, rt.Mem2Str(src))
 	}
 
 	return self.doImpl(ctx, src, desc, buf, req, true)
+}
+
+// isQuoted tells if src, leading blanks aside, starts with a quote
+func isQuoted(src []byte) bool {
+	for _, c := range src {
+		if !json.IsSpace(c) {
+			return c == '"'
+		}
+	}
+	return false
 }
 
 func isJsonString(val string) bool {
